@@ -6,3 +6,6 @@ import Desert.Props.C13
 #print axioms C13.enum_transient_read
 #print axioms C13.enum_transient_write
 #print axioms C13.enum_extension
+#print axioms C13.insertIdxCtor_mem
+#print axioms C13.insertIdxCtor_sorted
+#print axioms C13.sorted_ctors_ascending
